@@ -68,6 +68,8 @@ SOLVERS = {
     "z3": ["/usr/bin/z3", "-smt2", "-t:1000"],
     # array-heavy scripts (symbolic tables): bit-vector + array back ends with a longer per-query limit
     "z3-20s": ["/usr/bin/z3", "-smt2", "-t:20000"],
+    # thorough tier: a third, independently built solver (z3 5.1.0 from the z3-solver wheel) re-decides every query
+    "z3-new": ["z3-new", "-smt2", "-t:20000"],
     "cvc5-bv-20s": ["cvc5", "--lang", "smt2", "--incremental", "--tlimit-per=20000"],
 }
 
